@@ -138,6 +138,8 @@ class Function(Subroutine):
         interface_array = self.get_interface_array(
             keyword_list, fun_sig, drop_arg, change_strings
         )
+        if interface_array is None:
+            return None
         if self.result_obj is not None:
             arg_doc, docs = self.result_obj.get_hover()
             interface_array.append(f"{arg_doc} :: {self.result_obj.name}")
